@@ -2,11 +2,20 @@
 CALLS = []
 
 
+class Obj(object):
+    """what a recording target returns: a fresh, mutable, identity-bearing object"""
+    def __init__(self, n):
+        self.n = n
+
+    def __repr__(self):
+        return "Obj#%d" % self.n
+
+
 def rec(*args, **kwargs):
     CALLS.append(("rec", args, tuple(sorted(kwargs.items(), key=lambda kv: str(kv[0])))))
-    return ("rec", len(CALLS))
+    return Obj(len(CALLS))
 
 
 def rec2(*args, **kwargs):
     CALLS.append(("rec2", args, tuple(sorted(kwargs.items(), key=lambda kv: str(kv[0])))))
-    return ("rec2", len(CALLS))
+    return Obj(len(CALLS))
